@@ -155,7 +155,7 @@ struct State {
   over: bool,
   kind: Option<Kind>,
   panics: Vec<String>,
-  os_handles: Vec<(usize, std::thread::JoinHandle<()>)>,
+  os_handles: Vec<(usize, PoolHandle)>,
   leaked: Vec<usize>,
 }
 
@@ -632,6 +632,90 @@ fn is_abort(p: &Box<dyn Any + Send>) -> bool {
 
 const STACK: usize = 8 << 20;
 
+// ---------------------------------------------------------------------------------------
+// OS thread pool: executions create and finish threads at a high rate; reusing parked OS
+// threads avoids the mmap / munmap churn of fresh 8 MB stacks
+
+pub(crate) struct PoolHandle {
+  done: Arc<(StdMutex<bool>, StdCondvar)>,
+}
+
+impl PoolHandle {
+  pub(crate) fn is_finished(&self) -> bool {
+    match self.done.0.lock() {
+      Ok(g) => *g,
+      Err(p) => *p.into_inner(),
+    }
+  }
+}
+
+type Job = (Box<dyn FnOnce() + Send>, Arc<(StdMutex<bool>, StdCondvar)>);
+
+struct Pool {
+  q: StdMutex<(std::collections::VecDeque<Job>, usize)>,
+  cv: StdCondvar,
+}
+
+fn pool() -> &'static Pool {
+  use std::sync::OnceLock;
+  static P: OnceLock<Pool> = OnceLock::new();
+  P.get_or_init(|| Pool { q: StdMutex::new((std::collections::VecDeque::new(), 0)), cv: StdCondvar::new() })
+}
+
+fn pool_spawn(f: Box<dyn FnOnce() + Send>) -> PoolHandle {
+  let done = Arc::new((StdMutex::new(false), StdCondvar::new()));
+  let p = pool();
+  let need_thread = {
+    let mut g = match p.q.lock() {
+      Ok(g) => g,
+      Err(e) => e.into_inner(),
+    };
+    g.0.push_back((f, done.clone()));
+    // g.1 = number of idle workers
+    if g.1 >= g.0.len() {
+      false
+    } else {
+      true
+    }
+  };
+  if need_thread {
+    std::thread::Builder::new()
+      .stack_size(STACK)
+      .spawn(move || loop {
+        let job = {
+          let p = pool();
+          let mut g = match p.q.lock() {
+            Ok(g) => g,
+            Err(e) => e.into_inner(),
+          };
+          loop {
+            if let Some(j) = g.0.pop_front() {
+              break j;
+            }
+            g.1 += 1;
+            g = match p.cv.wait(g) {
+              Ok(g) => g,
+              Err(e) => e.into_inner(),
+            };
+            g.1 -= 1;
+          }
+        };
+        let (f, done) = job;
+        // thread_main catches every unwind itself
+        let _ = catch_unwind(AssertUnwindSafe(f));
+        if let Ok(mut d) = done.0.lock() {
+          *d = true;
+        }
+        done.1.notify_all();
+      })
+      .expect("spawn OS thread");
+  } else {
+    p.cv.notify_one();
+  }
+  PoolHandle { done }
+}
+
+
 /// register + start a new thread of the current execution; returns its tid
 pub(crate) fn spawn_in(ctx: &Ctx, name: Option<String>, lib: bool, body: Box<dyn FnOnce() + Send>) -> usize {
   let tid = {
@@ -657,10 +741,7 @@ pub(crate) fn spawn_in(ctx: &Ctx, name: Option<String>, lib: bool, body: Box<dyn
       finished_at: None,
     });
     let exec = ctx.exec.clone();
-    let h = std::thread::Builder::new()
-      .stack_size(STACK)
-      .spawn(move || thread_main(exec, tid, body))
-      .expect("spawn OS thread");
+    let h = pool_spawn(Box::new(move || thread_main(exec, tid, body)));
     st.os_handles.push((tid, h));
     tid
   };
@@ -746,7 +827,6 @@ where
     let mut waited = 0u32;
     loop {
       if h.is_finished() {
-        let _ = h.join();
         break;
       }
       let is_leaked = {
